@@ -127,6 +127,11 @@ class FlowMap:
             return None
         return base + res
 
+    def guards_within(self, stmt: ast.AST, scope: ast.AST) -> Tuple[Guard, ...]:
+        """Guards of stmt that arise inside `scope` (e.g. inside a loop body), not before it."""
+        inside = {id(n) for n in ast.walk(scope)}
+        return tuple(g for g in self.ctx[id(stmt)].guards if g.stmt is not None and id(g.stmt) in inside and g.stmt is not scope)
+
     def stmt_of(self, node: ast.AST) -> Optional[ast.stmt]:
         """Innermost statement (known to this map) containing node."""
         best = None
